@@ -36,13 +36,13 @@ const feeMgr = "0xb794f5ea0ba39494ce839613fffba74279579268"
 var chains = []string{"eth-main", "bnb-main"}
 
 type env struct {
-	f      *helper.Fixture
-	ctx    sdk.Context
-	height int64
-	vals   []sdk.ValAddress
-	powers []int64
-	tre    treasurytypes.MsgServer
-	cons   consensustypes.MsgServer
+	f         *helper.Fixture
+	ctx       sdk.Context
+	height    int64
+	vals      []sdk.ValAddress
+	powers    []int64
+	tre       treasurytypes.MsgServer
+	cons      consensustypes.MsgServer
 	consMod   consensus.AppModule
 	evmMod    evm.AppModule
 	valsetMod valset.AppModule
@@ -108,10 +108,6 @@ func newEnv(t ginkgo.FullGinkgoTInterface, powers []int64) (*env, error) {
 			return nil, err
 		}
 	}
-	if _, err := f.ValsetKeeper.TriggerSnapshotBuild(ctx); err != nil {
-		return nil, err
-	}
-	f.MetrixKeeper.UpdateUptime(ctx)
 	e.tre = treasurykeeper.NewMsgServerImpl(f.TreasuryKeeper)
 	e.cons = consensuskeeper.NewMsgServerImpl(f.ConsensusKeeper)
 	e.consMod = consensus.NewAppModule(f.Codec, f.ConsensusKeeper, nil, nil)
@@ -120,4 +116,13 @@ func newEnv(t ginkgo.FullGinkgoTInterface, powers []int64) (*env, error) {
 	e.palomaMod = paloma.NewAppModule(f.Codec, f.PalomaKeeper, nil, nil)
 	e.metrixMod = metrix.NewAppModule(f.Codec, f.MetrixKeeper)
 	return e, nil
+}
+
+func (e *env) buildSnapshot() error {
+	ctx := e.at(e.height)
+	if _, err := e.f.ValsetKeeper.TriggerSnapshotBuild(ctx); err != nil {
+		return err
+	}
+	e.f.MetrixKeeper.UpdateUptime(ctx)
+	return nil
 }
